@@ -54,6 +54,7 @@ impl Prop for C11 {
             "alloc_counted_on_corrupted_message",
             "alloc_counted_on_typed_conversion",
             "response_buffer_reused",
+            "response_buffer_reused_while_mav_is_set",
         ];
         v.into_iter().map(String::from).collect()
     }
@@ -73,7 +74,8 @@ impl Prop for C11 {
         };
         // one run in five hands in a response buffer that still holds an earlier response
         let mode = if rng.chance(1, 5) {
-            *rng.pick(&["sweep_prefill=17\n", "sweep_prefill=OLD,1\n", "sweep_prefill=x", "sweep_prefill=4242;4242\n"])
+            // (`sweep_unread`: ... and the interface reports it as still unread: MAV is set)
+            *rng.pick(&["sweep_prefill=17\n", "sweep_prefill=OLD,1\n", "sweep_prefill=x", "sweep_prefill=4242;4242\n", "sweep_unread=17\n", "sweep_unread=1;2"])
         } else {
             "sweep"
         };
@@ -252,13 +254,19 @@ impl Prop for C11 {
         let snapshot = world.dev.clone_state();
         let before = world.adopt();
         let pred = predict(&world.root, &before, s, Reading::Condition);
+        let unread = trace.mode.starts_with("sweep_unread=");
         let prefill: Vec<u8> = trace
             .mode
             .strip_prefix("sweep_prefill=")
+            .or(trace.mode.strip_prefix("sweep_unread="))
             .map(|p| p.as_bytes().to_vec())
             .unwrap_or_default();
         if !prefill.is_empty() {
             stats.probe("response_buffer_reused");
+        }
+        if unread {
+            stats.probe("response_buffer_reused_while_mav_is_set");
+            world.outq[0] = prefill.clone();
         }
         world.prefill = prefill.clone();
         let reference = world.exec_send(s);
@@ -308,6 +316,9 @@ impl Prop for C11 {
             stats.fault("F5_capacity");
             world.dev = snapshot.clone_state();
             world.exec_read(0);
+            if unread {
+                world.outq[0] = prefill.clone();
+            }
             world.prefill = prefill.clone();
             let mut sc = s.clone();
             sc.fmt = FmtCfg::Array { cap };
